@@ -3,10 +3,14 @@ src/data/datetime.rs -> coq/Gen/CliDtTables.v  (definitions only).
 
 Scraped: CLI_FILTER_PATTERNS rows (count checked against CLI_FILTER_PATTERNS_COUNT),
 CLI_DT_FILTER_APPEND_TIME_{VALUE,PATTERN}, the CGP_DUR_OFFSET_* pieces and the way
-REGEX_DUR_OFFSET is assembled from them (anchors included), which capture group feeds
-which Duration::try_* constructor in string_wdhms_to_duration, whether process_dt reads
-"%s" patterns in UTC, and every entry of MAP_TZZ_TO_TZz.
-Anything of unexpected shape raises ScrapeError."""
+REGEX_DUR_OFFSET is assembled from them (anchors included; these are string constants: data),
+and every entry of MAP_TZZ_TO_TZz.
+PROBED on the built binary (probe_dur; independent of how the functions are written): how many
+seconds each unit letter stands for, that '+' adds / '-' subtracts / '@' is relative to the other
+bound, and whether "+%s" is read in UTC whatever --tz-offset.  The old scrape of the shape of
+string_wdhms_to_duration / process_dt is kept only as a cross-check recorded in clidt_tables.json
+(body_crosscheck), never raising.
+Anything of unexpected shape in the DATA, or a probe answer that cannot be encoded, raises ScrapeError."""
 import os, re, json
 from common import *
 
@@ -141,7 +145,12 @@ def scrape_dur(src):
             raise ScrapeError("alternation separator %r" % (t,))
     if len(alt) % 2 != 1 or sorted(order) != sorted(letters):
         raise ScrapeError("alternation does not list each unit once: %r" % order)
-    # which group feeds which Duration constructor
+    return dict(letters=letters, order=order, anchor_start=anchor_start, anchor_end=anchor_end)
+
+
+def scrape_dur_body(src, letters, order):
+    """OLD way (kept as a cross-check only, never raising to the caller): which capture group feeds which
+    Duration constructor, read off the shape of fn string_wdhms_to_duration"""
     body = fn_body(src, "string_wdhms_to_duration")
     body_ns = re.sub(r'"((?:[^"\\]|\\.)*)"', '""', body)
     unit_code = {}
@@ -166,12 +175,108 @@ def scrape_dur(src):
         raise ScrapeError("'@' => Other not found")
     if not (re.search(r"Some\(\s*'\+'\s*\)\s*=>\s*DUR_OFFSET_ADDSUB::Add", src) and re.search(r"Some\(\s*'-'\s*\)\s*=>\s*DUR_OFFSET_ADDSUB::Sub", src)):
         raise ScrapeError("sign mapping not found")
-    return dict(units=[(ord(letters[n]), unit_code[n]) for n in order], anchor_start=anchor_start, anchor_end=anchor_end)
+    return [(ord(letters[n]), unit_code[n]) for n in order]
+
+
+# ----------------------------------------------------------------------------- probing the built binary
+SECS_CODE = {1: 0, 60: 1, 3600: 2, 86400: 3, 604800: 4}
+_UTC_RE = re.compile(rb"\(([+-]?\d+)-(\d\d)-(\d\d) (\d\d):(\d\d):(\d\d) \+00:00\)")
+
+
+def _days_from_civil(y, m, d):
+    y2 = y - 1 if m <= 2 else y
+    era = y2 // 400
+    yoe = y2 - era * 400
+    mp = (m + 9) % 12
+    doy = (153 * mp + 2) // 5 + d - 1
+    doe = yoe * 365 + yoe // 4 - yoe // 100 + doy
+    return era * 146097 + doe - 719468
+
+
+def _utc_secs(line):
+    m = _UTC_RE.search(line)
+    if not m:
+        return None
+    y, mo, d, h, mi, s = (int(x) for x in m.groups())
+    return _days_from_civil(y, mo, d) * 86400 + h * 3600 + mi * 60 + s
+
+
+def probe_dur(letters, order):
+    """Meaning of the relative-offset expression's pieces by PROBING the built binary (independent of how
+    string_wdhms_to_duration is written): `s4 --summary -a=+1<letter>` on a probe log, reading the
+    'Datetime filter -a/-b' and 'Datetime Now' lines:
+        +1<l>            : filter -a  -  now   = seconds of the unit that letter <l> sets   (and '+' adds)
+        -1<l>            : now  -  filter -a   = the same number                            ('-' subtracts)
+        -a X -b=@+1<l>   : filter -b  -  filter -a = the same number   ('@' = relative to the other bound)
+        -b X -a=@-1<l>   : filter -b  -  filter -a = the same number
+    -> ([(letter byte, unit code)] in alternation order, the raw observations)"""
+    import sys
+    sys.path.insert(0, os.path.dirname(os.path.dirname(os.path.abspath(__file__))))
+    import vlib
+    ok, log = vlib.build_s4()
+    if not ok:
+        raise ScrapeError("s4 does not build: " + log[-500:])
+    d = os.path.join(vlib.CACHE, "gen-probe")
+    os.makedirs(d, exist_ok=True)
+    probe = os.path.join(d, "clidt-%d.log" % os.getpid())
+    with open(probe, "w") as f:
+        f.write("2000-01-01 00:00:00.100 +00:00 a\n2000-01-01 00:00:00.500 +00:00 b\n")
+
+    def run(a, b, tzs="+00:00"):
+        args = ["--color", "never", "--summary", "--tz-offset=" + tzs]
+        if a is not None:
+            args.append("--dt-after=" + a)
+        if b is not None:
+            args.append("--dt-before=" + b)
+        rc, out, err = vlib.run_s4(args + [probe], timeout=60, env={"TZ": "UTC"})
+        fa = fb = now = None
+        for line in err.split(b"\n"):
+            if line.startswith(b"Datetime filter -a"):
+                fa = _utc_secs(line)
+            elif line.startswith(b"Datetime filter -b"):
+                fb = _utc_secs(line)
+            elif line.startswith(b"Datetime Now"):
+                now = _utc_secs(line)
+        return rc, fa, fb, now
+
+    X = "20000102T030405"
+    obs = {}
+    units = []
+    try:
+        for n in order:
+            l = letters[n]
+            rc1, fa1, _, now1 = run("+1" + l, None)
+            rc2, fa2, _, now2 = run("-1" + l, None)
+            rc3, fa3, fb3, _ = run(X, "@+1" + l)
+            rc4, fa4, fb4, _ = run("@-1" + l, X)
+            o = dict(plus=None if None in (fa1, now1) else fa1 - now1, minus=None if None in (fa2, now2) else now2 - fa2,
+                     at_plus=None if None in (fa3, fb3) else fb3 - fa3, at_minus=None if None in (fa4, fb4) else fb4 - fa4,
+                     rc=[rc1, rc2, rc3, rc4])
+            obs[l] = o
+            vals = set([o["plus"], o["minus"], o["at_plus"], o["at_minus"]])
+            if o["rc"] != [0, 0, 0, 0] or len(vals) != 1 or o["plus"] not in SECS_CODE:
+                raise ScrapeError("probe of unit letter %r: observations %r are not one known unit with '+' adding, '-' subtracting and '@' relative to the other bound" % (l, o))
+            units.append((ord(l), SECS_CODE[o["plus"]]))
+        # '+%s' read as UTC whatever --tz-offset ?
+        rc, fa, _, _ = run("+0", None, "+05:30")
+        if rc != 0 or fa not in (0, -19800):
+            raise ScrapeError("probe of '+0' under --tz-offset=+05:30: rc=%s filter -a=%r" % (rc, fa))
+        obs["epoch_plus0_tz0530"] = fa
+    finally:
+        try:
+            os.remove(probe)
+        except OSError:
+            pass
+    return units, fa == 0, obs
 
 
 def scrape_epoch_utc(src):
-    body = fn_body(src, "process_dt")
-    return bool(re.search(r'contains\(\s*"%s"\s*\)', body))
+    """cross-check only"""
+    try:
+        body = fn_body(src, "process_dt")
+        return bool(re.search(r'contains\(\s*"%s"\s*\)', body))
+    except Exception:
+        return None
 
 
 def scrape_tz(src):
@@ -197,7 +302,19 @@ def scrape_all():
              append_pattern=str_const(s4, "CLI_DT_FILTER_APPEND_TIME_PATTERN"),
              epoch_utc=scrape_epoch_utc(s4),
              tz=scrape_tz(dtm))
-    t.update(scrape_dur(s4))
+    dur = scrape_dur(s4)                       # the expression itself: data (string constants)
+    units, epoch_probe, obs = probe_dur(dur["letters"], dur["order"])
+    # cross-checks against the old scrape of the functions' shape: recorded, never raising
+    try:
+        body_units = scrape_dur_body(s4, dur["letters"], dur["order"])
+        cross = dict(ok=True, units=body_units, agrees=(body_units == units))
+    except Exception as ex:                    # a harmless rewrite of the function is not an error
+        cross = dict(ok=False, error=str(ex), agrees=None)
+    cross["epoch_utc_scraped"] = t["epoch_utc"]
+    cross["epoch_utc_agrees"] = (t["epoch_utc"] == epoch_probe)
+    t["epoch_utc"] = epoch_probe
+    t.update(units=units, anchor_start=dur["anchor_start"], anchor_end=dur["anchor_end"],
+             unit_probe=obs, body_crosscheck=cross)
     return t
 
 
